@@ -11,12 +11,15 @@
 //        -> R ret=<Severity returned> sev=<STEPfile::Error().severity()> errs=<ErrorCount()> warns=<WarningCount()>
 //             invalid=<_entsInvalid> incomplete=<_entsIncomplete> entwarn=<_entsWarning> notcreated=<_entsNotCreated>
 //             incr=<_fileIdIncr used> n=<InstanceCount> max=<MaxFileId>
-//   write FILE VALIDATE          WriteExchangeFile(FILE, VALIDATE, 1, 0)  -> R ret=<sev> sev=<Error().severity()>
-//   writework FILE               WriteWorkingFile(FILE, 1, 0)             -> R ret=<sev> sev=<...>
+//   write FILE VALIDATE [COMMENTS]  WriteExchangeFile(FILE, VALIDATE, 1, COMMENTS default 0)  -> R ret=<sev> sev=<Error().severity()>
+//   writework FILE [COMMENTS]    WriteWorkingFile(FILE, 1, COMMENTS default 0)  -> R ret=<sev> sev=<...>
 //   setstate IDX STATE           MgrNode(IDX)->ChangeState(STATE)         -> R ok | R bad-index
 //   incr                         SetFileIdIncrement() then report         -> R incr=<k> max=<MaxFileId>
 //   dump                         -> D n=<count> max=<MaxFileId> | <id>/<TYPE>/<state> ...   (TYPE = NAME or (A&B&C))
 //   inst IDX                     -> T <hex of the text STEPwrite(ostream) emits for instance IDX>
+//   vals IDX                     -> V <PART> (<attr name>/<redefining 0|1>/<hex of asStr()>)* | <PART> ...   the values the session
+//                                  holds (asStr of every attribute of every part, redeclared/redefining ones included; asStr is
+//                                  not the file writer: reals and enumerations are spelled differently, references are `#id`)
 //   attrs ENTITY                 -> A <name>/<NonRefType name>/<nullable 0|1>/<derived 0|1>/<redefining 0|1>/<Type() name, REF = REFERENCE_TYPE> ...
 //   quit
 // Unknown / malformed command -> R bad-op.
@@ -172,11 +175,11 @@ int main() {
             else if( c == "readwork" ) r = sf->ReadWorkingFile( w[1] );
             else r = sf->AppendWorkingFile( w[1] );
             readReply( r );
-        } else if( c == "write" && w.size() == 3 ) {
-            Severity r = sf->WriteExchangeFile( w[1], atoi( w[2].c_str() ), 1, 0 );
+        } else if( c == "write" && ( w.size() == 3 || w.size() == 4 ) ) {
+            Severity r = sf->WriteExchangeFile( w[1], atoi( w[2].c_str() ), 1, w.size() == 4 ? atoi( w[3].c_str() ) : 0 );
             fprintf( reply, "R ret=%s sev=%s\n", sevName( r ), sevName( sf->Error().severity() ) );
-        } else if( c == "writework" && w.size() == 2 ) {
-            Severity r = sf->WriteWorkingFile( w[1], 1, 0 );
+        } else if( c == "writework" && ( w.size() == 2 || w.size() == 3 ) ) {
+            Severity r = sf->WriteWorkingFile( w[1], 1, w.size() == 3 ? atoi( w[2].c_str() ) : 0 );
             fprintf( reply, "R ret=%s sev=%s\n", sevName( r ), sevName( sf->Error().severity() ) );
         } else if( c == "setstate" && w.size() == 3 ) {
             int i = atoi( w[1].c_str() );
@@ -209,6 +212,32 @@ int main() {
                 std::ostringstream os; // the ostream writer is the one WriteData/WriteWorkingData use
                 mgr->GetMgrNode( i )->GetApplication_instance()->STEPwrite( os, 0, 0 );
                 fprintf( reply, "T %s\n", hex( os.str() ).c_str() );
+            }
+        } else if( c == "vals" && w.size() == 2 ) {
+            // the population as the session holds it: every attribute of every part, redeclared ones included
+            int i = atoi( w[1].c_str() );
+            if( i < 0 || i >= mgr->InstanceCount() ) {
+                fprintf( reply, "R bad-index\n" );
+            } else {
+                SDAI_Application_instance * se = mgr->GetMgrNode( i )->GetApplication_instance();
+                std::vector<SDAI_Application_instance *> parts;
+                if( se->IsComplex() ) {
+                    for( STEPcomplex * p = ( ( STEPcomplex * )se )->head; p; p = p->sc ) parts.push_back( p );
+                } else {
+                    parts.push_back( se );
+                }
+                fprintf( reply, "V" );
+                for( size_t pi = 0; pi < parts.size(); pi++ ) {
+                    std::string tmp;
+                    fprintf( reply, "%s %s", pi ? " |" : "", StrToUpper( parts[pi]->EntityName(), tmp ) );
+                    int n = parts[pi]->attributes.list_length();
+                    for( int k = 0; k < n; k++ ) {
+                        STEPattribute & a = parts[pi]->attributes[k];
+                        std::string v = a.asStr( 0 );
+                        fprintf( reply, " %s/%d/%s", a.Name(), a.aDesc->AttrType() == AttrType_Redefining ? 1 : 0, hex( v ).c_str() );
+                    }
+                }
+                fprintf( reply, "\n" );
             }
         } else if( c == "attrs" && w.size() == 2 ) {
             SDAI_Application_instance * se = reg->ObjCreate( w[1].c_str() );
